@@ -2,37 +2,35 @@
 PREPARED certificates of earlier rounds — what a round leaves behind whose leader ran but crashed half-way through a broadcast
 or whose PREPAREs were partly lost. PROOF-ONLY (no stream, no Go work). NOT a registry entry (the lead owns C04's ENTRY).
 
-Files: lean/CharonV/Proofs/QbftTimedPrepared.lean (~870 lines: cluster invariant `S1` of the ROUND-CHANGE stage over every timed
-execution, built on rc_step' / RCtx.qrc_some / step_rc_* of Proofs/QbftPrepared.lean and the network lemmas of
-Proofs/QbftTimed.lean; builds 3 s), lean/CharonV/Props/C04TimedPrepared.lean (4 theorems + 1 non-vacuity theorem + kernel-evaluated
-executions; builds ~5 s).
+Files: lean/CharonV/Proofs/QbftTimedPrepared.lean (~4100 lines; builds ~6 s), lean/CharonV/Props/C04TimedPrepared.lean
+(8 theorems + 1 non-vacuity theorem + kernel-evaluated executions; builds ~5 s).
 
-STATUS: PARTIAL. Proved for every timed execution and every prepared state: the first of the four message delays of the good
-round (ROUND-CHANGE exchange with certificates -> the leader's J1/J2 PRE-PREPARE, justified at every receiver, for the highest
-prepared value of its quorum else its input, in flight to everybody by E + sigma + hi), silent rounds at FULL strength (prepared
-state survives, cluster poised for the next round, skew preserved) and their rotation composition. NOT proved: the remaining three
-delays (PRE-PREPARE / PREPARE / COMMIT over buffers holding earlier rounds, overlapping phases), i.e. "everybody has decided w by
-E + sigma + 4*hi"; the full statements `timed_prepared_good_round` / `timed_prepared_decides_within_rotation` are kept in the header
-comment of Props/C04TimedPrepared.lean. No extra hypothesis is used by the `_partial` theorems (they even need only
-sigma + hi < timeout rho); what is missing is part of the CONCLUSION. On two kernel-evaluated executions of a 4-member cluster (one
-down, members 1 and 3 prepared (1, 8) in round 1, unprepared leader 2 with input 9) the full conclusion holds: all decide 8 in
-round 2 within E + sigma + 4*hi.
+STATUS: the FULL statements are proved — `timed_prepared_good_round` (every running member decides ONE value by
+E + sigma + 4*hi, the value = ValueSpec of the leader's quorum: highest prepared value, else the leader's input) and
+`timed_prepared_decides_within_rotation` (after <= n-1 leaderless rounds that keep the prepared state) — over every execution of
+the timed semantics (any interleaving, overlapping phases, any oracle). Two hypotheses beyond C04Timed + valid-or-null prepared
+certificates: no DECIDED of an earlier round in a running member's buffer (hnd), the members' inputs are P.inp (hinpC); sigma <= lo
+as in C04Timed (not combined with the skew-tolerant C04Resync). The first-session `_partial` theorems are kept (they need only
+sigma + hi < timeout rho and neither extra hypothesis).
 
-To wire into C04's entry:
+To wire into C04's entry (unchanged):
     ENTRY.setdefault("lean_props_extra", []).append(EXTRA_LEAN)
     ENTRY["trusted_base"] += TRUSTED_BASE ; ENTRY["assumptions"] += ASSUMPTIONS ; ENTRY["level_text"] += " " + LEVEL_TEXT
-DESIGN.md section 8 "the timed theorems still assume silent earlier rounds" becomes: "... the timed theorems cover prepared
-members for silent rounds and for the ROUND-CHANGE / proposal step of the good round (C04TimedPrepared); the PRE-PREPARE..COMMIT
-delays of a timed good round with prepared members are covered at the phased level only (C04Prepared)".
+DESIGN.md section 8 "the timed theorems still assume silent earlier rounds" becomes: "the timed theorems cover members prepared
+in earlier rounds (C04TimedPrepared: good round, silent rounds, rotation; sigma <= lo); not combined with arbitrary entry skew".
 Build: `bin/lk build CharonV.Props.C04TimedPrepared`.
 """
 
 EXTRA_LEAN = "CharonV.Props.C04TimedPrepared"
 
 THEOREMS = [
-    "CharonV.Qbft.timed_prepared_good_round_partial",
+    "CharonV.Qbft.timed_prepared_good_round",
+    "CharonV.Qbft.timed_prepared_decides_within_rotation",
     "CharonV.Qbft.timed_prepared_silent_round",
+    "CharonV.Qbft.timed_prepared_good_round_partial",
     "CharonV.Qbft.timed_prepared_decides_within_rotation_partial",
+    "CharonV.Qbft.prepared_member_any_order",
+    "CharonV.Qbft.prepared_member_decides",
     "CharonV.Qbft.stuck_is_poised_prepared",
     # non-vacuity: the timed start state built from the partially progressed round of C04PreparedEx satisfies PHyp / PoisedP
     "CharonV.Qbft.C04TimedPreparedEx.sp_poised",
@@ -41,47 +39,55 @@ THEOREMS = [
 LEVEL_TEXT = (
     "Timed composition WITH PREPARED MEMBERS (Props/C04TimedPrepared.lean, proofs Proofs/QbftTimedPrepared.lean; same timed cluster "
     "semantics as C04Timed: global clock, delivery in (sent+lo, sent+hi], exact relative round timers, actions tick/deliver/fire/"
-    "start; every execution, every interleaving, every oracle per delivery). Start state `PoisedP` (timed analogue of `Stuck`): all "
-    "running members (>= quorum) in round rho-1, undecided, timers due in [E, E+sigma], sigma <= lo, nothing in flight, each member "
-    "holding any buffer of earlier-round messages (<= B per source, B + 1 <= fifo) and a prepared state that is null or a valid "
-    "certificate of an earlier round (different members may have prepared different rounds and values). "
-    "timed_prepared_good_round_partial - leader of rho runs with an input, sigma + hi < timeout rho: every execution either is still in "
-    "the ROUND-CHANGE stage (then now <= E + sigma + hi and every running member is quiet, undecided, not returned, in a round <= rho, "
-    "prepared state untouched; no round-rho timer fires) or factors as a1 ++ deliver :: a2 where the delivery is the quorum-th "
-    "ROUND-CHANGE at the leader, at an instant <= E + sigma + hi, upon which it broadcasts PRE-PREPARE(rho, w, J) with w != 0, "
-    "isJustified = true (accepted by every receiver, rule J1 or J2), w = the value prepared in the highest prepared round among the "
-    "duplicate-free quorum Q of ROUND-CHANGEs it holds, else its own input (ValueSpec), in flight to every running member. PARTIAL: "
-    "the conclusion 'everybody decides w by E + sigma + 4*hi' (three more delays) is not proved in the timed model. "
-    "timed_prepared_silent_round - FULL: leader of rho down, sigma + hi < timeout rho: every execution that reached an instant in "
-    "(E + sigma + hi, E + timeout rho) is `PoisedP` for rho+1 with the same prepared states and inputs, entry window "
-    "[E + timeout rho, E + timeout rho + sigma], all ROUND-CHANGEs (with certificates) delivered, B + 1. "
-    "timed_prepared_decides_within_rotation_partial - production leader function: there is m < n with the leader of rho0+m running and "
-    "the earlier ones not; every execution past E0 + sum of the m silent timeouts + sigma + hi went through that leader's proposal "
-    "(as above) no later than that instant. stuck_is_poised_prepared - `Stuck` (C04Prepared: holds at the start, preserved by lost and "
-    "partially progressing rounds) at every running member + timers in the window + empty network gives the hypotheses. "
-    "Non-vacuity: e4 (4 members, member 0 down), members 1 and 3 prepared (1, 8) in the partial round of C04PreparedEx, the timed "
-    "start state satisfies the hypotheses (sp_poised), the partial theorem is instantiated on it, and two kernel-evaluated timed "
-    "executions (full latency; short latencies with other oracles and delivery orders) end with all three members deciding the "
-    "prepared value 8 (not the leader's input 9) in round 2 within E + sigma + 4*hi = 1.4 s"
+    "start; every execution, every interleaving, overlapping phases, every oracle per delivery). Start state `PoisedP` (timed "
+    "analogue of `Stuck`): all running members (>= quorum) in round rho-1, undecided, timers due in [E, E+sigma], sigma <= lo, "
+    "nothing in flight, each member holding any buffer of earlier-round messages (<= B per source, none a DECIDED) and a prepared "
+    "state that is null or a valid certificate of an earlier round (different members may have prepared different rounds and "
+    "values). timed_prepared_good_round - FULL: leader of rho runs with an input, sigma + 4*hi < timeout rho, B + 4 <= fifo: in "
+    "every execution either the leader has not proposed yet (clock <= E + sigma + hi, everybody quiet and undecided) or there is ONE "
+    "value w != 0 = the value prepared in the highest prepared round among the duplicate-free quorum Q of ROUND-CHANGEs the leader "
+    "held when it proposed, else its input (ValueSpec), such that nobody faults (no bug/unjust output - in particular a "
+    "ROUND-CHANGE arriving after the proposal never yields UnjustQuorumRoundChanges: getJustifiedQrc is shown to succeed on every "
+    "buffer of the round), nobody returns or leaves round rho, whoever has decided has decided w in round rho exactly once, and once "
+    "the clock has passed E + sigma + 4*hi EVERY running member has decided w. timed_prepared_decides_within_rotation - FULL: "
+    "production leader function, there is m < n with the leader of rho0+m running and the earlier ones not; nobody ever faults; past "
+    "E0 + sum of the m silent timeouts + sigma + 4*hi every running member has decided one value (ValueSpec of the leader's quorum "
+    "in round rho0+m). timed_prepared_silent_round - FULL: leader down: every execution that reached an instant in "
+    "(E + sigma + hi, E + timeout rho) is `PoisedP` for rho+1 with the same prepared states, skew preserved, all ROUND-CHANGEs with "
+    "certificates delivered, B + 1. timed_prepared_good_round_partial / ..._rotation_partial (first session, kept): the "
+    "ROUND-CHANGE delay alone (the leader's justified PRE-PREPARE is in flight to everybody by E + sigma + hi) under "
+    "sigma + hi < timeout rho, without the hypotheses hnd / hinpC. prepared_member_any_order / prepared_member_decides - member "
+    "level: PRE-PREPARE (J1/J2), PREPAREs, COMMITs, DECIDEDs of the round in ANY order at a member holding earlier rounds' messages: "
+    "product-form bookkeeping or decided w exactly once; decided as soon as COMMITs of a quorum or a DECIDED are among them. "
+    "stuck_is_poised_prepared - `Stuck` (C04Prepared: holds at the start, preserved by lost and partially progressing rounds) at "
+    "every running member + timers in the window + empty network + timer objects not yet asked for rho gives the hypotheses. "
+    "Non-vacuity: e4 (4 members, member 0 down), members 1 and 3 prepared (1, 8) in the partial round of C04PreparedEx: the timed "
+    "start state satisfies the hypotheses (sp_poised), BOTH the partial and the full theorem are instantiated on it, and two "
+    "kernel-evaluated timed executions (full latency; short latencies with other oracles and delivery orders) end with all three "
+    "members deciding the prepared value 8 (not the leader's input 9) in round 2 within E + sigma + 4*hi = 1.4 s"
 )
 
 TRUSTED_BASE = [
     "Props/C04TimedPrepared.lean: same timed model as Props/C04Timed.lean (CharonV/Model/QbftTimed.lean, unchanged) and same "
-    "implementation model (CharonV/Model/Qbft.lean, unchanged); predicates PHyp / PoisedP / S1 / Fires / PRd.next / oldNext / rcsOf "
-    "of Proofs/QbftTimedPrepared.lean; ValueSpec / FireR' / Stuck / CertState / RcOk of Proofs/QbftPrepared.lean are reused, not "
-    "redefined",
+    "implementation model (CharonV/Model/Qbft.lean, unchanged); predicates PHyp / PoisedP / PRd / PRd.next / rcsOf (statement "
+    "level) and S1 / S1H / Fires / TP.Shape / TP.Act / TP.RInv / TP.JOk / GoodRoundP / RotP (proof level) of "
+    "Proofs/QbftTimedPrepared.lean; ValueSpec / FireR' / Stuck / CertState / RcOk / InvR' of Proofs/QbftPrepared.lean and "
+    "GoodOutcome / Quiet / noFault of Proofs/QbftGoodRound.lean are reused, not redefined; TP.* is a generalised copy of the "
+    "member lemmas and the cluster invariant of Proofs/QbftTimed.lean (which is unchanged)",
 ]
 
 ASSUMPTIONS = [
     "C04TimedPrepared: all running members are in the SAME round rho-1 >= 1 at the start, timers due in [E, E+sigma] with "
     "sigma <= lo (entry skew at most the minimal latency, as in C04Timed; the skew-tolerant treatment of C04Resync is not "
-    "combined), nothing in flight (messages of earlier rounds were delivered or lost), relative round timer (increasing / linear "
-    "production timers), bounded delay hi, exact timers, no clock drift, compare succeeds, no Byzantine member, members outside R "
-    "silent; sigma + hi < timeout rho; FIFO limit B + 1 <= fifo (rotation: B + n + 1 <= fifo)",
-    "C04TimedPrepared: PARTIAL - the PRE-PREPARE / PREPARE / COMMIT delays of the timed good round with prepared members "
-    "(decision by E + sigma + 4*hi) are not proved; they are proved on the phased schedule (C04Prepared) and, in the timed model, "
-    "only for never-prepared members (C04Timed / C04Resync); two kernel-evaluated executions exhibit the full conclusion",
-    "C04TimedPrepared: the decided/proposed value is the prepared one only if the leader's quorum of ROUND-CHANGEs contains a "
-    "prepared member (always the case when fewer than a quorum of running members are unprepared); otherwise the leader's input "
+    "combined with prepared members), nothing in flight (messages of earlier rounds were delivered or lost), relative round timer "
+    "(increasing / linear production timers) whose object was not asked for round rho or later yet, bounded delay hi, exact timers, "
+    "no clock drift, compare succeeds, no Byzantine member, members outside R silent; sigma + 4*hi < timeout rho; FIFO limit "
+    "B + 4 <= fifo (rotation: B + n + 3 <= fifo)",
+    "C04TimedPrepared (full theorems only): no DECIDED message of an earlier round sits in a running member's buffer (an undecided "
+    "member that had received a justified DECIDED would have decided), and the members' inputs are the proposals P.inp handed "
+    "over by start; prepared states are null or valid certificates (quorum of distinct PREPAREs for a non-null value of a round "
+    "in 1..rho-1), buffered PREPAREs are well-formed (PrepGood)",
+    "C04TimedPrepared: the decided value is the prepared one only if the leader's quorum of ROUND-CHANGEs contains a prepared "
+    "member (always the case when fewer than a quorum of running members are unprepared); otherwise the leader's input "
     "(ValueSpec, as in C04Prepared)",
 ]
